@@ -16,6 +16,8 @@ class MeshHarness:
     def cbmc_text(self):
         return '''
 #define ARG(i) nondet_int()
+#define LISTN() nondet_int()
+#define LISTV(i) nondet_int()
 void harness(void) {
   TK m; sym_mesh(&m); __CPROVER_assume(wf(&m));
   int ret = 0; int ret_exc = 0;
@@ -33,8 +35,10 @@ void harness(void) {
 
     def native_text(self):
         return '''
-static int *W_PRE, *W_POST, *W_POST2; static int MODE_REAL; static int NARGS[4];
+static int *W_PRE, *W_POST, *W_POST2; static int MODE_REAL; static int NARGS[4]; static int XLIST[64]; static int XLIST_N;
 #define ARG(i) (NARGS[i])
+#define LISTN() (XLIST_N)
+#define LISTV(i) (XLIST[i])
 int native_check(void) {
   TK m; unwitness(W_PRE, &m, NARGS);
   int ret = 0; int ret_exc = 0;
